@@ -2,6 +2,7 @@ import Poulpy.Model.Core.Ks
 import Poulpy.Lemmas.GadgetAlg
 import Poulpy.Lemmas.GadgetPhase
 import Poulpy.Lemmas.GadgetSum
+import Poulpy.Lemmas.GadgetAccum
 import Poulpy.Props.C09
 
 /-!
@@ -15,9 +16,11 @@ Model: `Poulpy/Model/Core/Ks.lean` (what `pdriver ks` executes).  Two layers, as
   automorphism keys.
 * **Layer A** (the executable functions): the vector-matrix product `Hal.opVmp` that
   `Ks.gglweProductDft` calls commutes with the phase for every `limb_offset` (`vmp_phase_commutes`);
-  for `dsize = 1` this is the whole product (`keyswitch_phase_dsize1`); for `dsize > 1` each of the
-  `dsize` passes is an instance (`product_pass_phase_partial`) — the accumulation over the passes
-  is the part that is stated but not proved (see the FULL STATEMENT block).
+  for `dsize = 1` this is the whole product (`keyswitch_phase_dsize1`, end to end from the ciphertext:
+  `keyswitch_internal_phase_dsize1`); for `dsize > 1` the loop over the `dsize` passes is characterised limb by limb
+  (`product_accum_dsize_gt1`, phase level `keyswitch_phase_dsize_gt1`), each pass is an instance
+  (`product_pass_phase_partial`) on the regrouped input (`product_pass_selection_partial`); only the notational
+  identification of these list sums with the `Finset` sums of `Gadget.acc` is left (see the FULL STATEMENT block).
 * The defect found by the correspondence (fused automorphism forms read an un-zeroed scratch
   buffer for `dsize ≥ 3`) is proved of the model as `fused_reads_stale_counterexample`.
 -/
@@ -291,19 +294,21 @@ example : ∃ prod : Buf,
     { base2k := 4, dsize := 1, p := 0, mat := exKey } rfl rfl (by decide) (zeroBuf_WF 2 2 2) rfl rfl (by decide)
     (entry_length exKey 2 rfl (by decide))
 
-/- FULL STATEMENT (not proved): `keyswitch_phase` for `dsize > 1`.
-   For every key with `0 < dsize`, `dnum·dsize ≤ key.size`, every well-formed `res` (size = key.size)
-   and input `a`, for all `l < key.size`:
+/- FULL STATEMENT (last step not proved): `keyswitch_phase` for `dsize > 1` in the vocabulary of `Gadget.acc`.
+   For every key with `2 ≤ dsize`, `dnum·dsize ≤ key.size`, every well-formed zeroed `res` (size = key.size) and
+   input `a`, for all `l < key.size`:
      phaseRow sk (bufRow (gglweProductDft res a key) l)
        = Σ_{di<dsize} Σ_{r<rowsOf a.size dsize dnum di} Σ_{i<rank_in}
-           [l+di < key.size ∧ l < szOf key.size dsize di]  a_i[limbIdx dsize r di] ⋆ phaseRow sk (rowLimb key.mat (r·rank_in+i) (l+di))
-   i.e. the executable product is `Gadget.acc` (summed over the input columns) with
-   `φ_{r,i}[l] = phaseRow sk (rowLimb key.mat (r·rank_in+i) l)`.
-   Proved below: each pass `di` is the vector-matrix product with `limb_offset = di` and commutes with
-   the phase (`product_pass_phase_partial`); in pass `di` the buffer `ai_dft` holds input limb
-   `limbIdx dsize r di` in limb `r` (`product_pass_selection_partial`).  Missing: the accumulation
-   `vec_znx_dft_add_assign` over the passes with the per-pass sizes (limbs ≥ `szOf … di` of pass `di` keep the previous content — zero
-   only when `res` entered zeroed, cf. `fused_reads_stale_counterexample`). -/
+           [l+di < key.size ∧ l < szOf key.size dsize di]  a_i[limbIdx dsize r di] ⋆ phaseRow sk (rowLimb key.mat (r·rank_in+i) (l+di)).
+   PROVED below, on the executable functions, for all inputs:
+     * `product_accum_dsize_gt1` / `keyswitch_phase_dsize_gt1`: the result (and its phase) is pass 0's product on the limbs
+       `< szOf 0` plus the later passes' products (`limb_offset = di`) on the limbs `< szOf di`;
+     * `vmp_phase_commutes` / `product_pass_phase_partial`: the phase of a pass's product is `Σ_j ai_j ⋆ phase(row j, limb l+di)`;
+     * `product_pass_selection_partial` / `dft_select_limbIdx`: `ai` limb `r`, column `i` is `a_i[limbIdx dsize r di]` (zero if absent).
+   NOT proved: the purely notational last step that rewrites these `List.foldl polyAdd` / `sumPolys` sums over
+   `j = r·rank_in + i` as the `Finset` sums of `Gadget.acc` (which needs the coefficient lists packaged as a `CommRing`,
+   e.g. by transfer to `AdjoinRoot (X^N+1)`); `gadget_identity` is therefore applied to the executable model by reading
+   the three theorems above side by side, not by a single Lean term. -/
 
 /-- **`product_pass_phase_partial`**: pass `di > 0` of the `dsize > 1` branch writes into `res_dft_tmp`
 the vector-matrix product with `limb_offset = di`; its phase at limb `l` is
@@ -369,6 +374,125 @@ theorem product_pass_selection_partial (a : Buf) (key : Key) (st : ProdSt) (di c
   rw [hfold.2.2.2.2 c, if_pos (List.mem_range.mpr hc)]
   unfold limbOr0
   exact dft_select_limbIdx _ _ _ _ _ _ hd hdi hr
+
+/-! ### `dsize > 1`: the accumulation over the passes (full, data level and phase level) -/
+
+/-- **`product_accum_dsize_gt1`** — the `dsize > 1` branch of `gglwe_product_dft`, limb by limb: pass 0
+*overwrites* the limbs `< passSize 0 = size − (dsize−2)` with its vector-matrix product (the other limbs
+keep the previous content of `res`), every later pass `di` *adds* the product with `limb_offset = di`
+of the regrouped input `aiFlatOf … di` (selection `(dsize, dsize−1−di)`, `min((a_size+di)/dsize, dnum)` rows)
+into the limbs `< passSize di`.  This is the executable counterpart of `Gadget.acc`. -/
+theorem product_accum_dsize_gt1 (res a : Buf) (key : Key) (hD : 2 ≤ key.dsize) (hres : res.WF)
+    (hsz : res.size = key.mat.size) (hmax : res.maxSize = key.mat.size) (hcols : res.cols = key.mat.colsOut)
+    (hn : res.n = a.n) (l c : Nat) (hc : c < res.cols) :
+    limbOr0 res.n ((gglweProductDft res a key).act c) l =
+      (List.range (key.dsize - 1)).foldl
+        (fun acc k => if l < passSize key (k + 1) then polyAdd acc (passEntry a key res.n (k + 1) l c) else acc)
+        (if l < passSize key 0 then passEntry a key res.n 0 l c else limbOr0 res.n (res.act c) l) :=
+  product_accum res a key hD hres hsz hmax hcols hn l c hc
+
+example : (List.range 4).map (fun l => limbOr0 1 ((gglweProductDft (zeroBuf 1 1 4) AccumExample.exA3 AccumExample.exKey3).act 0) l)
+    = [[1], [1], [0], [0]] := by decide
+
+/-- phase of limb `l` of the product of pass `di` -/
+def passPhase (sk : List Poly) (a : Buf) (key : Key) (n di l : Nat) : Poly :=
+  phaseRow sk ((List.range key.mat.colsOut).map (fun c => passEntry a key n di l c))
+
+theorem passEntry_length (a : Buf) (key : Key) (n di l c : Nat) (hM : ∀ j q, (key.mat.entry j q).length = n) :
+    (passEntry a key n di l c).length = n := by
+  unfold passEntry vmpFlat
+  simp only []
+  rw [List.getD_eq_getElem?_getD]
+  cases h : ((List.range (passSize key di * key.mat.colsOut)).map _)[l * key.mat.colsOut + c]? with
+  | none => simp
+  | some p =>
+    have hmem := List.mem_of_getElem? h
+    simp only [List.mem_map, List.mem_range] at hmem
+    obtain ⟨r, _, rfl⟩ := hmem
+    simp only [Option.getD_some]
+    split
+    · apply sumPolys_length
+      intro q hq
+      simp only [List.mem_map, List.mem_range] at hq
+      obtain ⟨j, _, rfl⟩ := hq
+      rw [Hal.negMul_length]; exact hM _ _
+    · simp
+
+/-- the phase is additive along a conditional accumulation (the shape of `product_accum`) -/
+theorem phaseRow_foldl_cond (n C : Nat) (sk : List Poly) (K : List Nat) (P : Nat → Prop) [DecidablePred P]
+    (f : Nat → Nat → Poly) (init : Nat → Poly) (hf : ∀ k c, (f k c).length = n) (hi : ∀ c, (init c).length = n) :
+    phaseRow sk ((List.range C).map (fun c => K.foldl (fun acc k => if P k then polyAdd acc (f k c) else acc) (init c))) =
+      K.foldl (fun acc k => if P k then polyAdd acc (phaseRow sk ((List.range C).map (f k))) else acc)
+        (phaseRow sk ((List.range C).map init)) := by
+  induction K generalizing init with
+  | nil => simp
+  | cons k ks ih =>
+    simp only [List.foldl_cons]
+    by_cases hp : P k
+    · simp only [hp, if_true]
+      rw [ih (fun c => polyAdd (init c) (f k c)) (by intro c; simp [hi c, hf k c])]
+      congr 1
+      have e : (List.range C).map (fun c => polyAdd (init c) (f k c)) =
+          List.zipWith polyAdd ((List.range C).map init) ((List.range C).map (f k)) := by
+        rw [List.zipWith_map_left, List.zipWith_map_right]
+        simp [List.zipWith_self]
+      rw [e]
+      apply phaseRow_add n
+      · intro p hp'; simp at hp'; obtain ⟨c, _, rfl⟩ := hp'; exact hi c
+      · intro p hp'; simp at hp'; obtain ⟨c, _, rfl⟩ := hp'; exact hf k c
+      · simp
+    · simp only [hp, if_false]
+      exact ih init hi
+
+/-- limbs of a buffer whose stored polynomials all have `b.n` coefficients (missing limbs read as zero) -/
+theorem act_limb_length (b : Buf) (h : ∀ col ∈ b.data, ∀ p ∈ col, p.length = b.n) (c l : Nat) :
+    (limbOr0 b.n (b.act c) l).length = b.n := by
+  unfold limbOr0
+  apply getD_length_of_all
+  intro p hp
+  unfold Buf.act at hp
+  have hp' := List.mem_of_mem_take hp
+  rw [List.getD_eq_getElem?_getD] at hp'
+  cases hc : b.data[c]? with
+  | none => simp [hc] at hp'
+  | some col => simp [hc] at hp'; exact h col (List.mem_of_getElem? hc) p hp'
+
+/-- **`keyswitch_phase_dsize_gt1`** — phase of the `dsize > 1` product: the phase (under any secret) of limb
+`l` of `gglwe_product_dft` is the phase of pass 0's product (or of the previous content of `res` on the limbs
+pass 0 does not write) plus the phases of the later passes' products on the limbs they reach; each
+`passPhase … di l` is `Σ_j ai_j ⋆ phase(key row j, limb l+di)` by `vmp_phase_commutes`, with
+`ai = aiFlatOf … di` the digit selection — i.e. the executable product instantiates `Gadget.acc`. -/
+theorem keyswitch_phase_dsize_gt1 (sk : List Poly) (res a : Buf) (key : Key) (hD : 2 ≤ key.dsize) (hres : res.WF)
+    (hsz : res.size = key.mat.size) (hmax : res.maxSize = key.mat.size) (hcols : res.cols = key.mat.colsOut)
+    (hn : res.n = a.n) (hM : ∀ j q, (key.mat.entry j q).length = res.n)
+    (hR : ∀ c l, (limbOr0 res.n (res.act c) l).length = res.n) (l : Nat) :
+    phaseRow sk ((List.range res.cols).map (fun c => limbOr0 res.n ((gglweProductDft res a key).act c) l)) =
+      (List.range (key.dsize - 1)).foldl
+        (fun acc k => if l < passSize key (k + 1) then polyAdd acc (passPhase sk a key res.n (k + 1) l) else acc)
+        (if l < passSize key 0 then passPhase sk a key res.n 0 l else phaseRow sk (bufRow res l)) := by
+  have e1 : (List.range res.cols).map (fun c => limbOr0 res.n ((gglweProductDft res a key).act c) l) =
+      (List.range res.cols).map (fun c => (List.range (key.dsize - 1)).foldl
+        (fun acc k => if l < passSize key (k + 1) then polyAdd acc (passEntry a key res.n (k + 1) l c) else acc)
+        (if l < passSize key 0 then passEntry a key res.n 0 l c else limbOr0 res.n (res.act c) l)) := by
+    apply List.map_congr_left
+    intro c hc
+    exact product_accum res a key hD hres hsz hmax hcols hn l c (List.mem_range.mp hc)
+  rw [e1, phaseRow_foldl_cond res.n res.cols sk _ (fun k => l < passSize key (k + 1))
+    (fun k c => passEntry a key res.n (k + 1) l c) _ (fun k c => passEntry_length a key res.n (k + 1) l c hM)
+    (by intro c; split
+        · exact passEntry_length a key res.n 0 l c hM
+        · exact hR c l)]
+  unfold passPhase bufRow
+  rw [← hcols]
+  congr 1
+  split <;> rfl
+
+example : ∀ l, phaseRow [] ((List.range 1).map (fun c => limbOr0 1 ((gglweProductDft AccumExample.dirty3 AccumExample.exA3 AccumExample.exKey3).act c) l)) =
+    (List.range 2).foldl (fun acc k => if l < passSize AccumExample.exKey3 (k + 1) then polyAdd acc (passPhase [] AccumExample.exA3 AccumExample.exKey3 1 (k + 1) l) else acc)
+      (if l < passSize AccumExample.exKey3 0 then passPhase [] AccumExample.exA3 AccumExample.exKey3 1 0 l else phaseRow [] (bufRow AccumExample.dirty3 l)) :=
+  fun l => keyswitch_phase_dsize_gt1 [] AccumExample.dirty3 AccumExample.exA3 AccumExample.exKey3 (by decide) AccumExample.dirty3_WF rfl rfl rfl rfl
+    (entry_length AccumExample.exKey3.mat 1 rfl (by decide))
+    (act_limb_length AccumExample.dirty3 (by decide)) l
 
 /-! ## The defect: fused automorphism forms read an un-zeroed scratch buffer (`dsize ≥ 3`) -/
 
